@@ -56,6 +56,22 @@ func c01RL(m map[string]int64) corev1.ResourceList {
 	return rl
 }
 
+// node capacity: the cpu amount of a "node" op is in MILLI-cores (the cluster total may change by a fraction of a core)
+func c01NodeRL(m map[string]int64) corev1.ResourceList {
+	rl := c01RL(m)
+	rl[corev1.ResourceCPU] = *resource.NewMilliQuantity(m["cpu"], resource.DecimalSI)
+	return rl
+}
+
+// c01Milli turns a whole-core node vector into the "node" op's units, often with a fraction of a core on top
+func c01Milli(rng *rand.Rand, m map[string]int64) map[string]int64 {
+	m["cpu"] *= 1000
+	if rng.Intn(2) == 0 {
+		m["cpu"] += int64(rng.Intn(1000))
+	}
+	return m
+}
+
 func c01Vec(rl corev1.ResourceList) map[string]int64 {
 	m := map[string]int64{}
 	for _, d := range c01Dims {
@@ -306,7 +322,7 @@ func (w *c01World) apply(o c01Op) {
 	case "resetAll":
 		w.gqm.ResetQuota()
 	case "node":
-		w.gqm.UpdateClusterTotalResource(c01RL(o.Delta))
+		w.gqm.UpdateClusterTotalResource(c01NodeRL(o.Delta))
 	default:
 		panic("unknown op " + o.Op)
 	}
@@ -706,7 +722,7 @@ func c01Random(rng *rand.Rand, n int, big bool, conc bool) []c01Op {
 		case k == 6:
 			out = append(out, c01Op{Op: "rebuild", Variant: rng.Intn(2)})
 		case k == 7:
-			out = append(out, c01Op{Op: "node", Delta: g.vec(100)})
+			out = append(out, c01Op{Op: "node", Delta: c01Milli(g.rng, g.vec(100))})
 		case conc && k < 11:
 			// concurrent batch: pod operations on distinct pods issued from separate goroutines
 			var ops []c01Op
